@@ -85,7 +85,7 @@ theorem sumLeft_eq_sum (l : List ℝ) : sumLeft l = l.sum := by
   | cons x xs => simp [sumLeft, foldl_add_eq]
 
 /-- every shell a tracked ion sums over is in the generated list of used shells -/
-theorem ionShells_subset (ion : Ion) : ∀ s ∈ ionShells ion, s ∈ usedShells := by
+theorem ionShells_subset (ion : Ion) : ∀ s ∈ ionShellsSpec ion, s ∈ usedShellsSpec := by
   cases ion <;> decide
 
 /-! ## the published fitting formulae, written out -/
